@@ -518,11 +518,20 @@ where
         S: Read,
         R: TransferSyntaxIndex,
     {
-        let mut file = BufReader::new(src);
+        let mut src = src;
+        let mut head = Vec::new();
 
         if read_preamble == ReadPreamble::Auto {
-            read_preamble = Self::detect_preamble(&mut file).context(ReadPreambleBytesSnafu)?;
+            // gather the region of the preamble and magic code first,
+            // in however many pieces the source delivers it
+            src.by_ref()
+                .take(132)
+                .read_to_end(&mut head)
+                .context(ReadPreambleBytesSnafu)?;
+            read_preamble = Self::detect_preamble_in(&head).context(ReadPreambleBytesSnafu)?;
         }
+
+        let mut file = BufReader::new(std::io::Cursor::new(head).chain(src));
 
         if read_preamble == ReadPreamble::Always {
             // skip preamble
@@ -548,7 +557,11 @@ where
     where
         S: Read,
     {
-        let buf = reader.fill_buf()?;
+        Self::detect_preamble_in(reader.fill_buf()?)
+    }
+
+    // detect the presence of a preamble in the first bytes of a source
+    fn detect_preamble_in(buf: &[u8]) -> std::io::Result<ReadPreamble> {
         let buflen = buf.len();
 
         if buflen < 4 {
